@@ -104,8 +104,12 @@ def optimal_clone(
     # Construct the following operator:
     #                                ___               ___
     # Q = ∑_{k=1}^N p_k |ψ_k ⊗ ψ_k ⊗ ψ_k> <ψ_k ⊗ ψ_k ⊗ ψ_k|
-    q_a = np.zeros((dim, dim))
+    q_a = np.zeros((dim, dim), dtype=complex)
     for k, state in enumerate(states):
+        state = np.asarray(state)
+        if state.ndim == 1:
+            # A vector given as a one-dimensional array is treated as a column vector.
+            state = state.reshape(-1, 1)
         q_a += probs[k] * tensor(state, state, state.conj()) @ tensor(state, state, state.conj()).conj().T
 
     # The system is over:
